@@ -32,7 +32,7 @@ def _private_copy(instance, value):
     """
     if getattr(instance, "_trust_supplied_values", False):
         return value
-    if isinstance(value, (list, dict, set, collections.deque, Structure)):
+    if isinstance(value, (list, dict, set, collections.deque, Structure, tuple, frozenset)):
         try:
             return copy.deepcopy(value)
         except Exception:  # pylint: disable=broad-except
